@@ -95,18 +95,24 @@ RetClause(s, e, used) ==
 
 CopyOf(s) == IF Buggy = "CopyForgets" THEN [list |-> s.list, toName |-> NoNames, names |-> {}]
              ELSE s
-\* CCodeMapper(cse_name_list=m.cse_name_list): the list holds (name, code string) pairs,
-\* so the constructed mapper can only RESERVE the names (repair b1a8afc: "names declared
-\* by their code strings, without a subexpression"); it is not one of the statement's
-\* copies and does not know which child a name stands for.  Its inherited entries are
-\* user-declared ones (mapped) whose child is an opaque token per name: a child the
-\* original had assigned may be assigned again there -- under a name that is still unique.
+\* CCodeMapper(cse_name_list=m.cse_name_list): the list holds (name, code string) pairs
+\* for the assignments the mappers made and (name, expression) pairs for the entries a
+\* user mapped (copy_with_mapped_cses).  From a code string the constructed mapper can
+\* only RESERVE the name (repair b1a8afc: "names declared by their code strings, without
+\* a subexpression"): it is not one of the statement's copies and does not know which
+\* child such a name stands for; a mapped entry it knows like the mapper it came from.
+\* Its inherited assignment entries are user-declared ones (mapped) whose child is an
+\* opaque token per name: a child the original had assigned may be assigned again
+\* there -- under a name that is still unique.
 Decl(name) == [t |-> "Decl", name |-> name]
 DeclOf(s) ==
-    [list |-> [i \in 1..Len(s.list) |->
-                  Entry(s.list[i].name, s.list[i].used, Decl(s.list[i].name), "", TRUE)],
-     toName |-> [c \in { Decl(s.list[i].name) : i \in 1..Len(s.list) } |-> c.name],
-     names |-> NamesOf(s)]
+    LET L == [i \in 1..Len(s.list) |->
+                 IF s.list[i].mapped THEN s.list[i]
+                 ELSE Entry(s.list[i].name, s.list[i].used, Decl(s.list[i].name), "", TRUE)]
+    IN [list |-> L,
+        toName |-> [c \in { L[i].child : i \in 1..Len(L) } |->
+                       L[CHOOSE i \in 1..Len(L) : L[i].child = c].name],
+        names |-> NamesOf(s)]
 CopyHow(s, how) == IF how = "ctor" /\ Buggy = "" THEN DeclOf(s) ELSE CopyOf(s)
 MappedEff(s, name, child) ==
     [list |-> Append(s.list, Entry(name, {}, child, "", TRUE)),
